@@ -28,7 +28,7 @@
 #include "hash.h"
 
 static char *magic_id = "NEOL";
-static uint32_t driver_id = 0x20260928; /* increment when driver changes (program_t layout: 32-bit reference counts) */
+static uint32_t driver_id = 0x20260929; /* increment when driver changes (inherit signatures) */
 static uint64_t config_id = 0;
 
 static FILE *crdir_fopen(char *);
@@ -38,6 +38,68 @@ static int str_case_cmp (char *, char *);
 static int check_times (time_t, const char *);
 static int locate_in (program_t *);
 static int locate_out (program_t *);
+
+/*
+ * A program is compiled against the programs it inherits as they are in memory
+ * at that moment: its function and variable indices, the flags of the functions
+ * it takes over and the class definitions it copies all come from there.  The
+ * modification times of the files cannot tell whether the inherited program
+ * found in memory at load time is still that program (it may have been compiled
+ * from a changed include file, or from an older version of its source), so a
+ * signature of everything an inheriting program depends on is saved with every
+ * inherit and compared when the binary is loaded.
+ */
+static uint32_t
+sig_bytes (uint32_t h, const void *data, size_t n)
+{
+  const unsigned char *p = (const unsigned char *) data;
+
+  while (n--)
+    {
+      h ^= *p++;
+      h *= 16777619u;		/* FNV-1a */
+    }
+  return h;
+}
+
+static uint32_t
+sig_string (uint32_t h, const char *str)
+{
+  return sig_bytes (h, str, strlen (str) + 1);
+}
+
+static uint32_t
+inherit_signature (program_t * prog)
+{
+  uint32_t h = 2166136261u;
+  int i, j;
+
+  h = sig_bytes (h, &prog->num_functions_total, sizeof (prog->num_functions_total));
+  for (i = 0; i < (int) prog->num_functions_total; i++)
+    {
+      h = sig_string (h, function_name (prog, i));
+      h = sig_bytes (h, &prog->function_flags[i], sizeof (prog->function_flags[i]));
+    }
+  h = sig_bytes (h, &prog->num_variables_total, sizeof (prog->num_variables_total));
+  for (i = 0; i < (int) prog->num_variables_total; i++)
+    h = sig_string (h, variable_name (prog, i));
+  h = sig_bytes (h, &prog->num_classes, sizeof (prog->num_classes));
+  for (i = 0; i < (int) prog->num_classes; i++)
+    {
+      class_def_t *cd = &prog->classes[i];
+
+      h = sig_string (h, prog->strings[cd->name]);
+      h = sig_bytes (h, &cd->size, sizeof (cd->size));
+      for (j = 0; j < (int) cd->size; j++)
+        {
+          class_member_entry_t *cm = &prog->class_members[cd->index + j];
+
+          h = sig_string (h, prog->strings[cm->name]);
+          h = sig_bytes (h, &cm->type, sizeof (cm->type));
+        }
+    }
+  return h;
+}
 
 /**
  * Save the binary version of a program.
@@ -187,12 +249,16 @@ void save_binary (program_t * prog, mem_block_t * includes, mem_block_t * patche
    * Write out inherit names (num_inherited already in program_t):
    * - 16-bit length of inherit name
    * - inherit name
+   * - 32-bit signature of the inherited program we were compiled against
    */
   for (i = 0; i < (int) p->num_inherited; i++)
     {
+      uint32_t sig = inherit_signature (p->inherit[i].prog);
+
       bin_count = (uint16_t)SHARED_STRLEN (p->inherit[i].prog->name);
       fwrite ((char *) &bin_count, sizeof (bin_count), 1, f);
       fwrite (p->inherit[i].prog->name, sizeof (char), bin_count, f);
+      fwrite ((char *) &sig, sizeof (sig), 1, f);
     }
 
   /*
@@ -626,6 +692,8 @@ program_t *load_binary (const char *name) {
    */
   for (i = 0; i < (int) p->num_inherited; i++)
     {
+      uint32_t sig = 0;
+
       buf[0] = '\0';
       if (fread ((char *) &bin_count, sizeof (bin_count), 1, f) == 1)
         {
@@ -633,6 +701,10 @@ program_t *load_binary (const char *name) {
           ALLOC_BUF (len + 1);
           if (fread (buf, sizeof (char), len, f) == len)
             buf[len] = '\0';
+          else
+            buf[0] = '\0';
+          if (fread ((char *) &sig, sizeof (sig), 1, f) != 1)
+            buf[0] = '\0';
         }
       if (!buf[0])
         {
@@ -683,6 +755,16 @@ program_t *load_binary (const char *name) {
           FREE (p);
           inherit_file = buf;	/* freed elsewhere */
           return 0;
+        }
+      /* is it still the program we were compiled against? */
+      if (inherit_signature (ob->prog) != sig)
+        {
+          opt_trace (TT_COMPILE|1, "out of date (inherited program /%s has changed).", buf);
+          fclose (f);
+          free_string (p->name);
+          FREE (p);
+          FREE (buf);
+          return OUT_OF_DATE;
         }
       p->inherit[i].prog = ob->prog;
     }
